@@ -567,3 +567,122 @@ func genTFNode(t *rapid.T, n *spec.Node, typ tftypes.Object, injected map[string
 func genTF(t *rapid.T, re *rootEnv, m tfMode, label string) tftypes.Value {
 	return genTFNode(t, re.view, re.tfType, re.injected, m, 0, label)
 }
+
+// ---------------------------------------------------------------------------------------------
+// aliasing inside prior contents of a target struct: two pointer fields holding the same pointer, a
+// pointer to a sibling value field, list elements repeated, slices sharing their backing array. All of
+// these are legal Go values of the target type ("all prior contents of the target struct").
+
+type aliasSite struct {
+	v    reflect.Value // settable pointer-typed location
+	name string
+}
+
+func collectAliasSites(v reflect.Value, name string, depth int, ptrs map[reflect.Type][]aliasSite, vals map[reflect.Type][]aliasSite, slices map[reflect.Type][]aliasSite) {
+	if depth > 4 {
+		return
+	}
+	switch v.Kind() {
+	case reflect.Struct:
+		if v.CanAddr() && depth > 0 {
+			vals[v.Type()] = append(vals[v.Type()], aliasSite{v, name})
+		}
+		if v.Type().PkgPath() == "time" {
+			return
+		}
+		for i := 0; i < v.NumField(); i++ {
+			if v.Type().Field(i).PkgPath != "" {
+				continue
+			}
+			collectAliasSites(v.Field(i), name+"."+v.Type().Field(i).Name, depth+1, ptrs, vals, slices)
+		}
+	case reflect.Ptr:
+		if v.Type().Elem().Kind() != reflect.Struct {
+			return
+		}
+		if v.CanSet() {
+			ptrs[v.Type()] = append(ptrs[v.Type()], aliasSite{v, name})
+		}
+		if !v.IsNil() {
+			collectAliasSites(v.Elem(), name, depth, ptrs, vals, slices) // same depth: the pointee is not a sibling value
+		}
+	case reflect.Interface:
+		if !v.IsNil() && v.Elem().Kind() == reflect.Ptr && !v.Elem().IsNil() {
+			// a oneof wrapper: its payload field can be aliased, the wrapper itself is left alone
+			w := v.Elem().Elem()
+			if w.Kind() == reflect.Struct && w.NumField() == 1 {
+				collectAliasSites(w.Field(0), name+"."+w.Type().Field(0).Name, depth+1, ptrs, vals, slices)
+			}
+		}
+	case reflect.Slice:
+		if v.CanSet() && v.Len() > 0 && v.Type().Elem().Kind() != reflect.Uint8 {
+			slices[v.Type()] = append(slices[v.Type()], aliasSite{v, name})
+		}
+		for i := 0; i < v.Len() && i < 3; i++ {
+			collectAliasSites(v.Index(i), fmt.Sprintf("%s[%d]", name, i), depth+1, ptrs, vals, slices)
+		}
+	}
+}
+
+// aliasInto introduces up to three aliases into the struct rv (the prior contents of a target).
+func aliasInto(t *rapid.T, rv reflect.Value, label string) []string {
+	if !coin(t, 1, 3, label+"/alias") {
+		return nil
+	}
+	ptrs, vals, slices := map[reflect.Type][]aliasSite{}, map[reflect.Type][]aliasSite{}, map[reflect.Type][]aliasSite{}
+	collectAliasSites(rv, "", 0, ptrs, vals, slices)
+	type cand struct {
+		dst  aliasSite
+		src  reflect.Value
+		what string
+	}
+	var cands []cand
+	typeNames := func(m map[reflect.Type][]aliasSite) []reflect.Type {
+		ts := make([]reflect.Type, 0, len(m))
+		for k := range m {
+			ts = append(ts, k)
+		}
+		sort.Slice(ts, func(i, j int) bool { return ts[i].String() < ts[j].String() })
+		return ts
+	}
+	for _, pt := range typeNames(ptrs) {
+		ps := ptrs[pt]
+		for i := range ps {
+			for j := range ps {
+				if i != j && !ps[i].v.IsNil() && len(cands) < 200 {
+					cands = append(cands, cand{ps[j], ps[i].v, ps[j].name + " = " + ps[i].name + " (same pointer)"})
+				}
+			}
+			for _, vs := range vals[pt.Elem()] {
+				if len(cands) < 200 {
+					cands = append(cands, cand{ps[i], vs.v.Addr(), ps[i].name + " = &" + vs.name})
+				}
+			}
+		}
+	}
+	for _, st := range typeNames(slices) {
+		ss := slices[st]
+		for i := range ss {
+			for j := range ss {
+				if i != j && len(cands) < 240 {
+					cands = append(cands, cand{ss[j], ss[i].v, ss[j].name + " = " + ss[i].name + " (same backing array)"})
+				}
+			}
+		}
+	}
+	if len(cands) == 0 {
+		return nil
+	}
+	var done []string
+	n := rapid.IntRange(1, 3).Draw(t, label+"/naliases")
+	for i := 0; i < n; i++ {
+		c := cands[rapid.IntRange(0, len(cands)-1).Draw(t, fmt.Sprintf("%s/alias%d", label, i))]
+		if !c.dst.v.CanSet() || !c.src.IsValid() {
+			continue
+		}
+		c.dst.v.Set(c.src)
+		done = append(done, c.what)
+	}
+	st.probe("aliased-prior-contents")
+	return done
+}
